@@ -52,6 +52,46 @@ func Key(name string) crypto.PrivKey {
 	return k
 }
 
+// KeyT returns a deterministic key of the given libp2p key type ("ed25519", "secp256k1", "ecdsa", "rsa").
+func KeyT(name, typ string) crypto.PrivKey {
+	if typ == "" || typ == "ed25519" {
+		return Key(name)
+	}
+	mu.Lock()
+	defer mu.Unlock()
+	id := typ + "/" + name
+	if k, ok := keys[id]; ok {
+		return k
+	}
+	r := &detReader{state: sha256.Sum256([]byte("verif-key-" + id))}
+	var k crypto.PrivKey
+	var err error
+	switch typ {
+	case "secp256k1":
+		k, _, err = crypto.GenerateSecp256k1Key(r)
+	case "ecdsa":
+		k, _, err = crypto.GenerateECDSAKeyPair(r)
+	case "rsa":
+		k, _, err = crypto.GenerateRSAKeyPair(2048, r)
+	default:
+		panic("unknown key type " + typ)
+	}
+	if err != nil {
+		panic(err)
+	}
+	keys[id] = k
+	return k
+}
+
+// PeerT returns the peer ID of KeyT(name, typ).
+func PeerT(name, typ string) peer.ID {
+	p, err := peer.IDFromPrivateKey(KeyT(name, typ))
+	if err != nil {
+		panic(err)
+	}
+	return p
+}
+
 // Peer returns the peer ID of Key(name).
 func Peer(name string) peer.ID {
 	k := Key(name)
